@@ -123,4 +123,40 @@ fn dispatch_events_per_event_body(&mut self, sources_at_lookup: &SourceList<'l, 
 //@ tail
     Ok(())
 //@ endslice
+
+//@ slice src/loop_logic.rs / impl EventLoop<'l, Data> / fn dispatch_events :: stmts <<for event in self.synthetic_events.drain(..).chain(events)>> .. <<for event in self.synthetic_events.drain(..).chain(events)>> props=C15,C02 name=EventLoop::dispatch_events::batch_loop
+//@ rw R20 1 <<for event in self.synthetic_events.drain(..).chain(events)>> => <<for event in lit: batch>>
+//@ rw R10 1/2 <<self.handle.inner.sources.borrow()>> => <<sources_at_lookup>>
+//@ rw R10 2/2 <<self.handle.inner.sources.borrow()>> => <<sources>>
+//@ rw R10 1 <<self.handle.inner.sources.borrow_mut()>> => <<sources>>
+//@ rw R10 2 <<&mut self.handle.inner.poll.borrow_mut()>> => <<&mut *poll>>
+//@ rw R10 1 <<= self.handle.inner.poll.borrow_mut();>> => <<= &mut *poll;>>
+//@ rw R10 3 <<self .handle .inner .sources_with_additional_lifecycle_events .borrow_mut()>> => <<*extra>>
+//@ closure <<|entry| entry.source.clone()>>
+-> (c: Option<Rc<dyn EventDispatcher<Data> + 'l>>) ensures c == entry.disp()
+//@ closure <<|entry| entry.source.is_none()>>
+-> (b: bool) ensures b == entry.vacant()
+//@ sig
+/// S1 slice of EventLoop::dispatch_events: the WHOLE `for event in ..` statement (the per-event body is also verified on
+/// its own, see per_event_body, with the full contract). Rule R20: the iterator expression of the loop head
+/// (`Vec::drain(..).chain(..)`, which Verus cannot take) is replaced by a parameter `batch: Vec<PollEvent>` holding the
+/// same sequence (synthetic events, then polled fd events, then expired timers). R10 as in per_event_body; the cell
+/// parameters are shared by all iterations, so this slice states NOTHING that depends on their contents across
+/// iterations -- its one clause is about the lookups made.
+fn dispatch_events_batch_loop(&mut self, batch: Vec<PollEvent>, sources_at_lookup: &SourceList<'l, Data>, sources: &mut SourceList<'l, Data>, mut poll: &mut Poll, extra: &mut AdditionalLifecycleEventsSet, data: &mut Data) -> (r: crate::Result<()>)
+//@ spec
+    requires all_accept::<Data>(), sources_at_lookup.wf(), old(sources).wf(),
+    ensures
+        // C02 / C15: EVERY event of the batch is looked up (generation-checked; a live one is then handed to its source, see
+        // per_event_body) -- also the events behind one whose source returned an error: a failing source must not cost the
+        // others their events or their already-popped timer expirations.  KNOWN FINDING F10: the three `?` exits.
+        forall|k: int| 0 <= k < batch@.len() ==> SourceList::<Data>::looked_up((#[trigger] batch@[k]).token.inner.forget()),
+//@ loop 1
+        invariant
+            all_accept::<Data>(), sources_at_lookup.wf(), sources.wf(),
+            lit.seq() == batch@,
+            forall|k: int| 0 <= k < lit.index@ ==> SourceList::<Data>::looked_up((#[trigger] batch@[k]).token.inner.forget()),
+//@ tail
+    Ok(())
+//@ endslice
 }
